@@ -1,5 +1,6 @@
 import Frp.Engines.ConfBase
 import Frp.Model.CmdSpec
+import Frp.Props.C18Type
 /-
   Driver engine "conf" (C18), second part: one logical definition through files on disk, JSON, flags
   (`cf`), raw flag parsing on the regenerated registration tables (`fl`, `dfl`), client-side and server
@@ -8,7 +9,7 @@ import Frp.Model.CmdSpec
 -/
 namespace Frp
 namespace Engines
-open Proto ProxyMsg Gen.ProxyMsg ConfNum Validate Flags Gen.Flags TypedConf Gen.TypedConf
+open Proto ProxyMsg Gen.ProxyMsg ConfNum Validate Flags Gen.Flags TypedConf Gen.TypedConf TypeDispatch
 
 namespace Conf
 
@@ -270,8 +271,113 @@ def ploadStep (n : String) (specs : List String) (impl : String) : Verdict :=
       verdictOf model impl (some prop)
   | _, _ => .bad "pload"
 
+/-! ### the `type` of a definition through the real loader (`ty`) -/
+
+/-- `x<hex>` = the spelling written under the key `type`, `-` = no such key, `#` = a number under that key -/
+def tyDoc (spell : String) : Option Doc :=
+  if spell = "-" then some { keys := [] }
+  else if spell = "#" then some { keys := [], typeNotString := true }
+  else (unhx spell).map fun s => { keys := [(peekKey, s)] }
+
+def renderCF (keys : List CF) (c : Rec CF) : String :=
+  " ".intercalate (keys.map fun k => k.name ++ "=" ++ renderValue (c.get k))
+
+/-- the implementation's `k=v …` list (proxy fields) -/
+def implCF (s : String) : Option (Rec CF) := (parseKVs ((s.splitOn " ").filter (· ≠ ""))).map recOf
+
+/-- `ty p <fmt> <place> <strict> <spell> <base> k=v…`: one proxy definition whose `type` is spelled `spell`, the
+    other keys being a valid definition of type `base`, in a TOML / YAML / JSON client configuration (main file
+    or an included one) through the real LoadClientConfig + ValidateAllClientConfig; when accepted, the real
+    MarshalToMsg → JSON wire → NewProxyConfigurerFromMsg.
+    impl = `rej:load | rej:val | acc go=<t> wrap=<x> cli k=v… srv=ok k=v… | … srv=err:<kind>` (k = every field of
+    `serverFields`) -/
+def tyProxyStep (fmt spell base : String) (kvs : List String) (impl : String) : Verdict :=
+  match tyDoc spell, ptOfName base, parseKVs kvs with
+  | some d, some bt, some kv =>
+    if kv.any (fun (_, v) => !bwSupported v) then .skip "bandwidth-literal-outside-model" else
+    let model :=
+      -- the legacy INI format has its own parser and type table (pkg/config/legacy), which are not modelled:
+      -- the documented spelling must be accepted as that type, anything else is only judged by the predicate
+      if fmt = "ini" then
+        (if d.get peekKey = some bt.bytes && !impl.startsWith ("acc go=" ++ bt.name ++ " ") then "acc go=" ++ bt.name ++ " …"
+         else impl)
+      else
+      match loadProxy d with
+      | none => "rej:load"
+      | some l =>
+        if l.cfg.go ≠ bt then "bad:base" else
+        -- LoadClientConfig: decode, then Complete(user = "")
+        let c0 := recOf (kv.map fun (k, v) => (k, bwReparse v))
+        let cli := complete [] (c0.set .cType (.str l.cfg.ty))
+        let keys := C18.serverFields l.cfg.go
+        let head := "acc go=" ++ l.cfg.go.name ++ " wrap=" ++ hx l.wrapper ++ " cli " ++ renderCF keys cli
+        match serverRecon (marshal (marshalTable l.cfg.go) (mapVals wireNorm cli)) with
+        | none => head ++ " srv=err:type"
+        | some (t', c') =>
+          if t' ≠ l.cfg.go then head ++ " srv=err:othertype:" ++ t'.name
+          else head ++ " srv=ok " ++ renderCF keys c'
+    -- the property predicate on the implementation's own result: an ACCEPTED definition carries a listed
+    -- type, its wrapper agrees, and the server reconstructs it field by field
+    let prop : Option Bool :=
+      if !impl.startsWith "acc " then some true else
+      -- an INI section without `type` is the documented default type; its loaded Type is empty, which is the
+      -- case the round-trip theorem excludes by hypothesis (the server's default type applies)
+      if fmt = "ini" && spell = "-" then none else
+      match splitFirst ((impl.drop 4).toString) " cli " with
+      | none => none
+      | some (hd, rest) =>
+        match hd.splitOn " ", splitFirst rest " srv=" with
+        | [g, w], some (cliS, srvS) =>
+          match splitFirst g "=", splitFirst w "=", implCF cliS with
+          | some ("go", go), some ("wrap", wr), some cli =>
+            match unhx wr with
+            | none => none
+            | some wr =>
+              let srv : Option (Option (Str × Rec CF)) :=
+                if srvS.startsWith "ok " then
+                  (implCF ((srvS.drop 3).toString)).map fun sc => some (asStr (sc.get .cType), sc)
+                else some none
+              srv.map fun srv => C18.tyProxyHoldsOn (Str.ofString go) wr cli srv
+          | _, _, _ => none
+        | _, _ => none
+    if model = "bad:base" then .bad "ty: the accepted spelling is not the base type" else
+    verdictOf model impl prop
+  | _, _, _ => .bad "ty p"
+
+/-- `ty v …`: the same for one visitor definition; impl = `rej:load | rej:val | acc go=<t> wrap=<x> ty=<x>` -/
+def tyVisitorStep (fmt spell base : String) (impl : String) : Verdict :=
+  match tyDoc spell, vtOfName base with
+  | some d, some bt =>
+    let model :=
+      if fmt = "ini" then
+        (if d.get peekKey = some bt.bytes && !impl.startsWith ("acc go=" ++ bt.name ++ " ") then "acc go=" ++ bt.name ++ " …"
+         else impl)
+      else
+      match loadVisitor d with
+      | none => "rej:load"
+      | some l =>
+        if l.cfg.go ≠ bt then "bad:base"
+        else "acc go=" ++ l.cfg.go.name ++ " wrap=" ++ hx l.wrapper ++ " ty=" ++ hx l.cfg.ty
+    let prop : Option Bool :=
+      if !impl.startsWith "acc " then some true else
+      if fmt = "ini" && spell = "-" then none else
+      match ((impl.drop 4).toString).splitOn " " with
+      | [g, w, t] =>
+        match splitFirst g "=", splitFirst w "=", splitFirst t "=" with
+        | some ("go", go), some ("wrap", wr), some ("ty", ty) =>
+          match unhx wr, unhx ty with
+          | some wr, some ty => some (C18.tyVisitorHoldsOn (Str.ofString go) wr ty)
+          | _, _ => none
+        | _, _, _ => none
+      | _ => none
+    if model = "bad:base" then .bad "ty: the accepted spelling is not the base type" else
+    verdictOf model impl prop
+  | _, _ => .bad "ty v"
+
 def stepExt (tok : List String) (impl : String) : Option Verdict :=
   match tok with
+  | "ty" :: "p" :: fmt :: _place :: _strict :: spell :: base :: kvs => some (tyProxyStep fmt spell base kvs impl)
+  | ["ty", "v", fmt, _place, _strict, spell, base] => some (tyVisitorStep fmt spell base impl)
   | "fl" :: g :: ssh :: args => some (flStep g ssh args impl)
   | "dfl" :: g => some (dflStep g impl)
   | ["usg", g, ssh] => some (usgStep g ssh impl)
